@@ -56,6 +56,7 @@ ASSUMPTIONS = [
 EXPECTED_PROBES = ["loads_other_hash_seed", "hash_then_dumps_then_loads_other_seed",
                    "loads_after_restart", "loads_across_O_modes", "duplicate_deliveries",
                    "user_class_messages", "legacy_class_messages", "compiled_roundtrips",
+                   "digests_of_shared_dags",
                    "fresh_interpreter_nodes", "digests_compared"]
 BUDGET_SCALE = {"quick": 1.25, "thorough": 1.0}
 
@@ -92,7 +93,8 @@ def start_zygotes(base):
     for k in range(K_ZYG):
         for opt in (False, True):
             path = os.path.join(_ZYG_DIR, f"z{k}{'O' if opt else ''}.sock")
-            cmd = [sys.executable] + (["-O"] if opt else []) + [
+            from .driver import no_aslr_prefix
+            cmd = no_aslr_prefix() + [sys.executable] + (["-O"] if opt else []) + [
                 "-m", "dst.node_agent", "--zygote", path]
             p = subprocess.Popen(cmd, env=_agent_env(zyg_hash_seed(base, k)), cwd=VERIF_DIR,
                                  stdout=subprocess.PIPE, stdin=subprocess.DEVNULL)
@@ -180,6 +182,19 @@ def generate(seed, tier):
         while not spec.is_expr_term(t):
             t = g.term(0)
         terms.append(t)
+    # the same expression with and without shared sub-objects (pickle keeps the sharing)
+    for t in list(terms):
+        if r.random() < 0.35:
+            subs = [s for s in spec.subterms(t) if spec.is_expr_term(s) and s[0] == "n"]
+            for s2 in spec.subterms(t):
+                if s2[0] == "t":
+                    subs += [x for x in s2[1] if x[0] == "n"]
+            sub = r.choice(subs) if subs else t
+            shared = ["let", [["s0", sub]],
+                      ["n", r.choice(["Sum", "Product", "Min"]),
+                       [["t", [["r", "s0"], t, ["r", "s0"]]]]]]
+            terms.append(shared)
+            terms.append(spec.expand(shared))
     cterms = []
     for _ in range(r.randint(0, 2)):
         t = ga.term(0)
@@ -235,7 +250,9 @@ def generate(seed, tier):
             have[n].append(h)
             c = f"c{hc[0]}"
             listed = r.choice([["x", "y", "z"], ["z", "x", "y"], ["x", "y"], ["x"], []])
-            ops.append(["compile", n, h, listed, c])
+            how = r.choice([None, None, {"as_variables": True},
+                            {"as_variables": True, "grow_list_after": True}])
+            ops.append(["compile", n, h, listed, c] + ([how] if how else []))
             args = [r.choice([["i", 2], ["f", "1.5"], ["i", 3], ["f", "0.25"]]) for _ in range(3)]
             ops.append(["call", n, c, args])
             m = f"cm{len(cmsgs)}"
@@ -268,7 +285,8 @@ class Node:
         self.proc = None
         self.sock = None
         if cfg.get("fresh"):
-            cmd = [sys.executable] + (["-O"] if cfg["opt"] else []) + [
+            from .driver import no_aslr_prefix
+            cmd = no_aslr_prefix() + [sys.executable] + (["-O"] if cfg["opt"] else []) + [
                 "-m", "dst.node_agent", "--stdio"]
             self.proc = subprocess.Popen(cmd, env=_agent_env(cfg["hs"]), cwd=VERIF_DIR,
                                          stdin=subprocess.PIPE, stdout=subprocess.PIPE)
@@ -434,7 +452,7 @@ def execute(scenario, open_sigs):
                         probe("loads_across_O_modes")
                     if n in restarted:
                         probe("loads_after_restart")
-                    if uses(s["term"], ["UTag", "UTag3", "UNamed"]):
+                    if uses(s["term"], ["UTag", "UTag3", "UNamed", "UHashless"]):
                         probe("user_class_messages")
                     if uses(s["term"], ["LegacyVar", "LegacyVarX", "PureLegacy"]):
                         probe("legacy_class_messages")
@@ -481,7 +499,10 @@ def execute(scenario, open_sigs):
                 h = op[2]
                 if (n, h) in handle_term:
                     r = rq(n, {"op": "digest", "h": h})
-                    tk = jkey(handle_term[(n, h)])
+                    # equal expressions have one key: sharing of sub-objects is not structure
+                    tk = jkey(spec.expand(handle_term[(n, h)]))
+                    if handle_term[(n, h)][0] == "let":
+                        probe("digests_of_shared_dags")
                     first = digests.setdefault(tk, {"walk": r["walk"], "keybuilder": r["keybuilder"],
                                                     "node": n, "seed": node(n).hash_seed})
                     probe("digests_compared")
@@ -494,9 +515,10 @@ def execute(scenario, open_sigs):
                                 "now_O": node(n).optimize})
                     ev.append([r["walk"][:12], r["keybuilder"][:12]])
             elif k == "compile":
-                _, _, h, listed, c = op
+                _, _, h, listed, c = op[:5]
+                how = op[5] if len(op) > 5 else {}
                 if (n, h) in handle_term:
-                    r = rq(n, {"op": "compile", "h": h, "c": c, "vars": listed})
+                    r = rq(n, dict({"op": "compile", "h": h, "c": c, "vars": listed}, **how))
                     t = handle_term[(n, h)]
                     key = (jkey(t), tuple(listed))
                     first = compile_outcome.setdefault(key, r["compiled"])
